@@ -173,7 +173,7 @@ def run_variants(props: Optional[List[str]] = None, ids: Optional[List[str]] = N
                 summary["failures"].append({"id": r["id"], "prop": r["prop"], "problem": "neutral variant gave %s" % r["status"], "out": r.get("out", "")[-1500:]})
         else:
             summary["breaking_expected"] += 1
-            if r["status"] == "violation":
+            if r["status"] == "violation" or (r["status"] == "undecided" and v.get("accept_undecided")):
                 summary["breaking_killed"] += 1
             else:
                 summary["failures"].append({"id": r["id"], "prop": r["prop"], "problem": "breaking variant gave %s" % r["status"], "out": r.get("out", "")[-1500:]})
